@@ -439,12 +439,17 @@ Section Programs.
 
   (* Watcher::filtered_block_connected: the cache is updated in a critical section of its own,
      BEFORE the database is asked which of the block's locators are being watched *)
-  Definition w_connect_p (hash : N) (txs : list N) (h : N) : prog unit :=
-    acq L_cache ;;; act (update_cache (cache_block hash txs)) ;;; rel L_cache ;;;
+  Definition w_cache_p (hash : N) (txs : list N) : prog unit :=
+    acq L_cache ;;; act (update_cache (cache_block hash txs)) ;;; rel L_cache.
+
+  Definition w_rest_p (txs : list N) (h : N) : prog unit :=
     acq L_db ;;; breaches <- rd (find_breaches txs) ;; rel L_db ;;;
     invalid <- breach_loop_p breaches [] ;;
     (match invalid with [] => Ret tt | l => delete_apps_p l false end) ;;;
     wr (fun t => set_w_height t h).
+
+  Definition w_connect_p (hash : N) (txs : list N) (h : N) : prog unit :=
+    w_cache_p hash txs ;;; w_rest_p txs h.
 
   Definition w_disconnect_p (hash : N) (h : N) : prog unit :=
     acq L_cache ;;; wr (fun t => set_w_cache t (ti_disconnect (w_cache t) hash)) ;;; rel L_cache ;;;
